@@ -7,11 +7,13 @@ import (
 	"fmt"
 	"os"
 	"os/exec"
+	"os/signal"
 	"path/filepath"
 	"regexp"
 	"sort"
 	"strconv"
 	"strings"
+	"sync/atomic"
 	"syscall"
 	"time"
 )
@@ -66,10 +68,23 @@ func verifDir() string {
 	return "/verif"
 }
 
+// currentChild is the process group of the phase that is running (0 = none): a supervisor that is told to go away
+// (SIGTERM/SIGINT/SIGHUP, e.g. by an outer timeout) takes its child along instead of leaving it orphaned.
+var currentChild atomic.Int64
+
 func superMain(args []string) int {
 	if len(args) < 1 {
 		return usage()
 	}
+	sigs := make(chan os.Signal, 1)
+	signal.Notify(sigs, syscall.SIGTERM, syscall.SIGINT, syscall.SIGHUP)
+	go func() {
+		<-sigs
+		if pid := currentChild.Load(); pid > 0 {
+			_ = syscall.Kill(-int(pid), syscall.SIGKILL)
+		}
+		os.Exit(2)
+	}()
 	id := args[0]
 	tier := os.Getenv("VERIF_TIER")
 	replay := ""
@@ -219,6 +234,8 @@ func (s *Super) runPhase(ph Phase) []Phase {
 		s.infra = append(s.infra, "cannot start child: "+err.Error())
 		return nil
 	}
+	currentChild.Store(int64(cmd.Process.Pid))
+	defer currentChild.Store(0)
 	done := make(chan error, 1)
 	go func() { done <- cmd.Wait() }()
 	var werr error
